@@ -99,6 +99,10 @@ register("C19", "exploration", "E1 explore", "enumeration of subcommand x option
          "c/l/x/a/t/i over small source trees (with and without .7z, --verbose, with and without output directory), every -v SIZE x unit suffix combination, and t/x on every single-bit flip and truncation of 4 (thorough 8) base archives plus encrypted / unsupported / damaged fixtures; exit status 0 exactly when the library-level operation succeeds, and exit 0 on x implies the original bytes.",
          "Statuses are taken in-process; the status mapping is compared with real `python -m py7zr` subprocesses on 10 invocations per run. -P needs a terminal and is not exercised.", "DESIGN.md section 5 C19")
 
+register("C20", "exploration", "E1 explore", "exhaustive enumeration of (codec family x texture x API x position) growth series on the real code with both data-path constants scaled down, metered by tracemalloc",
+         "The property's sizes cannot be enumerated; the same code is run with the I/O block and the extraction chunk rebound to 1/2048, 1/1024 and 1/512 of their values on members of 1 and 4 MiB (2000x..8000x the block). Oracles: no growth of the tracemalloc peak with member size beyond the scaled budget, and the part of the peak proportional to the constants, extrapolated to the real constants from three collinear scales, below the budget. Five codec/direction pairs genuinely grow and are known findings.",
+         "Block and chunk are the only size constants on the data path; tracemalloc sees Python-level buffers and codec return values, not codec-internal C allocations. Literal 0.5-4 GB members are not run.", "DESIGN.md section 5 C20")
+
 NOT_YET = {}
 
 
